@@ -58,7 +58,7 @@ func c11Alphabet() []Action {
 		cmdOn(0, "ACL", "SAVE"), cmdOn(0, "ACL", "LOAD", "MERGE"), cmdOn(0, "ACL", "LOAD", "REPLACE"), {K: "restart"},
 		cmdOn(1, "AUTH", "u", "p1"), cmdOn(1, "AUTH", "u", "p2"), cmdOn(1, "AUTH", "u", "p3"), cmdOn(1, "AUTH", "u", "wrong"), cmdOn(1, "AUTH", "u", sha("p1")), cmdOn(1, "AUTH", "u", sha("p3")),
 		cmdOn(1, "AUTH", "v", "p1"), cmdOn(1, "AUTH", "u", "pv"), cmdOn(1, "AUTH", "adminpw"), cmdOn(1, "AUTH", "wrong"), cmdOn(1, "AUTH", "nobody", "p1"),
-		cmdOn(1, "HELLO", "3", "AUTH", "u", "p1"), cmdOn(1, "HELLO", "2", "AUTH", "u", "wrong"),
+		cmdOn(1, "HELLO", "3", "AUTH", "u", "p1"), cmdOn(1, "HELLO", "2", "AUTH", "u", "wrong"), cmdOn(1, "HELLO", "4", "AUTH", "u", "p1"),
 		cmdOn(1, "ACL", "WHOAMI"), cmdOn(1, "GET", "a"),
 		cmdOn(2, "AUTH", "u", "p1"), cmdOn(2, "GET", "a"),
 	}
@@ -208,7 +208,8 @@ func (r *c11Ref) step(a Action) (isAuth bool, authOK bool) {
 		}
 	case a.C >= 1 && name == "HELLO":
 		isAuth = true
-		authOK = r.canAuth(a.A[3], a.A[4])
+		// a protocol version other than 2 or 3 is refused as a whole: the credentials in it must not take effect
+		authOK = r.canAuth(a.A[3], a.A[4]) && (a.A[1] == "2" || a.A[1] == "3")
 		if authOK && !r.Closed[a.C] {
 			r.Identity[a.C], r.Authed[a.C] = a.A[3], true
 		}
